@@ -145,7 +145,7 @@ def gen_orbits(ctx, sel, workers, sensitive):
     path = os.path.join(ctx.work, "sel.ndjson")
     with open(path, "w") as fh:
         for f in sel:
-            fh.write(json.dumps({"id": f["id"], "dirs": f["dirs"]}) + "\n")
+            fh.write(json.dumps({"id": f["id"], "dirs": f["dirs"], "full": bool(f.get("full", True))}) + "\n")
     invs = ["OrbPremise", "OrbTiles", "OrbLaws", "OrbEmit"] + (["OrbTilesSensitive"] if sensitive else [])
     r = ctx.tlc_ok(
         "AreaCases", _cfg("OrbInit", "OrbNext", invs), what="orbits of %d faces: shifts, 24 rotations, subdivisions proved to tile the face" % len(sel), workers=workers, env={"SEL_FILE": path}, timeout=3000
@@ -319,12 +319,14 @@ def run(ctx):
     for f in faces:
         if not f["patch"].startswith("closed:"):
             groups.setdefault((f["patch"], len(f["dirs"]), f["bucket"]), []).append(f)
-    per = 60 if thorough else 14
+    per = 60 if thorough else 14          # with shifts and subdivisions
+    per_rot = 200 if thorough else 60     # rotations only (position coverage: poles, antimeridian)
     sel = []
     for k in sorted(groups):
         g = list(groups[k])
         rng.shuffle(g)
-        sel += g[:per]
+        sel += [dict(f, full=True) for f in g[:per]]
+        sel += [dict(f, full=False) for f in g[per : per + per_rot]]
     orbits = gen_orbits(ctx, sel, w_big, sensitive=thorough or True)
     # ---- 4. replay
     t0 = time.time()
